@@ -89,6 +89,10 @@ def corpus_cases():
         # cleanup with an address-specific rule that is longer than every ip rule
         ({"1.1.1.1": {"EVENT": "1/h"}, "ip": {"EVENT": "5/s"}}, [[0, "1.1.1.1", "EVENT"], [10], [20, "1.1.1.1", "EVENT"]]),
         ({"ip": {"EVENT": "1/s,2/h"}}, [[0, "1.1.1.1", "EVENT"], [5, "1.1.1.1", "EVENT"], [10], [20, "1.1.1.1", "EVENT"]]),
+        # large allowances are allowances too: the 1031st message of an hour under 1030/h is refused (per address, global, specific)
+        ({"ip": {"EVENT": "1030/h"}}, [[i // 4, "1.1.1.1", "EVENT"] for i in range(1040)]),
+        ({"global": {"REQ": "1100/min"}}, [[i // 40, ADDRS[i % 2], "REQ"] for i in range(1110)]),
+        ({"2.2.2.2": {"EVENT": "1500/h"}, "ip": {"EVENT": "2000/h"}}, [[i // 2, "2.2.2.2", "EVENT"] for i in range(1510)]),
     ]
 
 
